@@ -286,6 +286,21 @@ class Verifier:
         sframe = E.Frame("<spec>", ci, dict(frame_locals), None, "spec")
         I.spec_frame = sframe
         I.root_frame = frame
+        # ---- fields taken from a symbolic run of the real constructor with default arguments (e.g. constant tables)
+        if c.pre_state.get("from_init") and selfv is not None and not c.is_init:
+            scratch = I.construct(ci, [], dict(c.pre_state.get("init_args", {})))
+            srec, rec = run.rec(scratch.oid), run.rec(selfv.oid)
+
+            def rebind(v):
+                if isinstance(v, VBound) and isinstance(v.recv, VRef) and v.recv.oid == scratch.oid:
+                    return VBound(selfv, v.name)
+                return v
+            for f in c.pre_state["from_init"]:
+                val = srec.fields[f]
+                if isinstance(val, VRef) and val.kind == "dict" and run.rec(val.oid).concrete:
+                    dr = run.rec(val.oid)
+                    dr.items = {k: (kk, rebind(vv)) for k, (kk, vv) in dr.items.items()}
+                rec.fields[f] = rebind(val)
         # ---- ghost
         for g, init in c.ghost.items():
             run.ghost[g] = self.eval_spec(I, init, sframe)
@@ -340,6 +355,27 @@ class Verifier:
 
     def install_hooks(self, I, c):
         I.hooks["container_write"] = lambda ref: I.run.written.add(I.run.base_oid(ref.oid))
+        owned = c.locks.get("owned")
+        if owned:
+            # ownership clause: the listed fields of `self` are only touched while the lock is held
+            run = I.run
+            self_oid = run.sym_oids.get("self")
+
+            def chk(ref, attr, mode):
+                if I.pure or ref.oid != self_oid:
+                    return
+                for lockpath, fields in owned.items():
+                    if attr in fields:
+                        lf = lockpath.split(".")[-1]
+                        rec = run.rec(ref.oid)
+                        if lf not in rec.fields:
+                            I.getattr(ref, lf)
+                        lrec = run.rec(rec.fields[lf].oid)
+                        I.ctx.oblige(I, "owns", f"{attr}:{mode}", lrec.held >= 1,
+                                     f"{mode} of self.{attr} without holding {lockpath}", False,
+                                     text=f"self.{attr} is only accessed while {lockpath} is held")
+            I.hooks["field_read"] = lambda ref, attr: chk(ref, attr, "read")
+            I.hooks["field_write"] = lambda ref, attr: chk(ref, attr, "write")
 
     def check_frame(self, I, c, fr, run, sframe):
         """everything reachable from the tracked objects that is not named in `modifies` is unchanged"""
